@@ -17,17 +17,24 @@ fuzz_target!(|data: &[u8]| {
     let env = rqv::fuzz_env();
     let mut ch = Chooser::new(&choices);
     let case = gen_place_case(&mut ch, &GenOpts { max_file: 16, max_hunks: 4, max_fuzz: 3 });
+    let only = std::env::var("RQV_PLACE_ORACLE").unwrap_or_default();
+    let want = |p: &str| only.is_empty() || only == p;
     let mut cx = CaseCtx::new(env);
-    if let Verdict::Fail(m) = check_c02(&case, &mut cx) {
+    if !want("C02") {
+    } else if let Verdict::Fail(m) = check_c02(&case, &mut cx) {
         eprintln!("C02 VIOLATION: {}\nCASE {}", m, rqv::to_json(&case));
         std::process::abort();
     }
     let mut cx = CaseCtx::new(env);
-    if let Verdict::Fail(m) = C03.check(&case, &mut cx) {
+    if !want("C03") {
+    } else if let Verdict::Fail(m) = C03.check(&case, &mut cx) {
         eprintln!("C03 VIOLATION: {}\nCASE {}", m, rqv::to_json(&case));
         std::process::abort();
     }
     // C04: apply + rollback must restore the file
+    if !want("C04") {
+        return;
+    }
     match rqv::props::place::run_place(&case, case.fuzz, true) {
         Ok(h) => {
             if let Some(Ok(st)) = h.rollbacks.first() {
